@@ -199,7 +199,13 @@ def run(chk):
         rhos = [oqupy.operators.spin_dm(rng.choice(["z+", "x+", "y-", "z-"])) for _ in range(L)]
         with_pt = [rng.random() < 0.5 for _ in range(L)]
         par = oqupy.TempoParameters(dt=dt, epsrel=eps, dkmax=2)
-        pts = [quiet(oqupy.pt_tempo_compute, oqupy.Bath(0.5 * (SZ if i % 2 == 0 else SX), corr), 0.0, N * dt, parameters=par, progress_type="silent")
+        # coupling operators along z, x and along a direction with a complex eigenbasis ((sx + sy)/sqrt 2: conj(O) != +-O);
+        # the first site of every run carries the latter, with a Hamiltonian that has a y component
+        SYc = oqupy.operators.sigma("y")
+        cops = [0.5 * (SX + SYc) / np.sqrt(2) if (i == 0 or rng.random() < 0.3) else 0.5 * (SZ if i % 2 == 0 else SX) for i in range(L)]
+        with_pt[0] = True
+        hs[0] = hs[0] + rng.uniform(0.3, 1) * SYc
+        pts = [quiet(oqupy.pt_tempo_compute, oqupy.Bath(cops[i], corr), 0.0, N * dt, parameters=par, progress_type="silent")
                if with_pt[i] else None for i in range(L)]
         # uncoupled chain = independent single sites
         chain = oqupy.SystemChain([2] * L)
